@@ -161,7 +161,21 @@ func (d *drv) randomOp(rnd *rand.Rand, host string, capsSeen *[]capRec) (map[str
 		}
 		return out
 	}
-	switch x := rnd.Intn(100); {
+	x := rnd.Intn(100)
+	if sc.ReleaseHeavy { // assign 38, release 40, relh 18, relaff 4
+		x = map[bool]int{true: 0, false: 0}[true]
+		switch y := rnd.Intn(100); {
+		case y < 38:
+			x = 0
+		case y < 78:
+			x = 60
+		case y < 96:
+			x = 80
+		default:
+			x = 95
+		}
+	}
+	switch {
 	case x < 50:
 		op := map[string]any{"op": "assign", "host": host, "h": handleIDs[rnd.Intn(len(handleIDs))],
 			"num": []int{1, 1, 1, 2, 2, 3, 5}[rnd.Intn(7)], "use": []string{"Workload", "Workload", "Workload", "Workload", "Tunnel"}[rnd.Intn(5)],
@@ -226,13 +240,23 @@ func (d *drv) seeded(t int, mode string, seed int64) {
 	if mode != "conc" {
 		// sequential histories over random pool layouts / reservations / configs (C20, C21)
 		sc := randomScenario(rnd)
+		tickPct := 8
+		if mode == "seq21" {
+			// release-centred histories: one permissive pool, cooldown mostly on, more ticks
+			p := poolMenu[[]int{0, 2}[rnd.Intn(2)]]
+			p.Uses = []string{"Workload", "Tunnel"}
+			sc.Pools, sc.Rsv, sc.Strict, sc.MaxB = []pool{p}, nil, false, 0
+			sc.Cool = []int{100, 100, 100, 0}[rnd.Intn(4)]
+			sc.ReleaseHeavy = true
+			tickPct = 16
+		}
 		d.start(t, sc)
 		clients := selgen.SortedKeys(sc.Clients)
 		for n := 25 + rnd.Intn(30); n > 0; n-- {
 			switch x := rnd.Intn(100); {
-			case x < 8:
+			case x < tickPct:
 				d.tick()
-			case x < 12:
+			case x < tickPct+4:
 				if ips, _ := d.allocated(); len(ips) > 0 {
 					ip := ips[rnd.Intn(len(ips))]
 					if id := d.capture(ip); id != 0 {
